@@ -1425,7 +1425,7 @@ package vm
 
 // The base table: the standard state-writing entries are flagged.
 //@ func newInstructionSet
-//@   property C12
+//@   property C12 C11
 //@   ensures [sstore]   result[SSTORE] != nil && (@needswrite(result[SSTORE].execute) ==> result[SSTORE].writes)
 //@   ensures [log0]     result[LOG0] != nil && (@needswrite(result[LOG0].execute) ==> result[LOG0].writes)
 //@   ensures [log4]     result[LOG4] != nil && (@needswrite(result[LOG4].execute) ==> result[LOG4].writes)
@@ -1433,3 +1433,146 @@ package vm
 //@   ensures [create2]  result[CREATE2] != nil && (@needswrite(result[CREATE2].execute) ==> result[CREATE2].writes)
 //@   ensures [suicide]  result[SELFDESTRUCT] != nil && (@needswrite(result[SELFDESTRUCT].execute) ==> result[SELFDESTRUCT].writes)
 //@   ensures [call]     result[CALL] != nil && result[CALL].minStack >= 3
+//@   # stack bounds of every base entry (C11): minStack = pops, maxStack = 1024 + pops - pushes, with the arities of
+//@   # the Yellow Paper / EIPs written out independently of the table (tools/gen_jumptable_stack_contract.py)
+//@   ensures [stack.STOP] result[STOP] != nil && result[STOP].minStack == 0 && result[STOP].maxStack == 1024
+//@   ensures [stack.ADD] result[ADD] != nil && result[ADD].minStack == 2 && result[ADD].maxStack == 1025
+//@   ensures [stack.MUL] result[MUL] != nil && result[MUL].minStack == 2 && result[MUL].maxStack == 1025
+//@   ensures [stack.SUB] result[SUB] != nil && result[SUB].minStack == 2 && result[SUB].maxStack == 1025
+//@   ensures [stack.DIV] result[DIV] != nil && result[DIV].minStack == 2 && result[DIV].maxStack == 1025
+//@   ensures [stack.SDIV] result[SDIV] != nil && result[SDIV].minStack == 2 && result[SDIV].maxStack == 1025
+//@   ensures [stack.MOD] result[MOD] != nil && result[MOD].minStack == 2 && result[MOD].maxStack == 1025
+//@   ensures [stack.SMOD] result[SMOD] != nil && result[SMOD].minStack == 2 && result[SMOD].maxStack == 1025
+//@   ensures [stack.ADDMOD] result[ADDMOD] != nil && result[ADDMOD].minStack == 3 && result[ADDMOD].maxStack == 1026
+//@   ensures [stack.MULMOD] result[MULMOD] != nil && result[MULMOD].minStack == 3 && result[MULMOD].maxStack == 1026
+//@   ensures [stack.EXP] result[EXP] != nil && result[EXP].minStack == 2 && result[EXP].maxStack == 1025
+//@   ensures [stack.SIGNEXTEND] result[SIGNEXTEND] != nil && result[SIGNEXTEND].minStack == 2 && result[SIGNEXTEND].maxStack == 1025
+//@   ensures [stack.LT] result[LT] != nil && result[LT].minStack == 2 && result[LT].maxStack == 1025
+//@   ensures [stack.GT] result[GT] != nil && result[GT].minStack == 2 && result[GT].maxStack == 1025
+//@   ensures [stack.SLT] result[SLT] != nil && result[SLT].minStack == 2 && result[SLT].maxStack == 1025
+//@   ensures [stack.SGT] result[SGT] != nil && result[SGT].minStack == 2 && result[SGT].maxStack == 1025
+//@   ensures [stack.EQ] result[EQ] != nil && result[EQ].minStack == 2 && result[EQ].maxStack == 1025
+//@   ensures [stack.ISZERO] result[ISZERO] != nil && result[ISZERO].minStack == 1 && result[ISZERO].maxStack == 1024
+//@   ensures [stack.AND] result[AND] != nil && result[AND].minStack == 2 && result[AND].maxStack == 1025
+//@   ensures [stack.XOR] result[XOR] != nil && result[XOR].minStack == 2 && result[XOR].maxStack == 1025
+//@   ensures [stack.OR] result[OR] != nil && result[OR].minStack == 2 && result[OR].maxStack == 1025
+//@   ensures [stack.NOT] result[NOT] != nil && result[NOT].minStack == 1 && result[NOT].maxStack == 1024
+//@   ensures [stack.BYTE] result[BYTE] != nil && result[BYTE].minStack == 2 && result[BYTE].maxStack == 1025
+//@   ensures [stack.SHA3] result[SHA3] != nil && result[SHA3].minStack == 2 && result[SHA3].maxStack == 1025
+//@   ensures [stack.ADDRESS] result[ADDRESS] != nil && result[ADDRESS].minStack == 0 && result[ADDRESS].maxStack == 1023
+//@   ensures [stack.BALANCE] result[BALANCE] != nil && result[BALANCE].minStack == 1 && result[BALANCE].maxStack == 1024
+//@   ensures [stack.ORIGIN] result[ORIGIN] != nil && result[ORIGIN].minStack == 0 && result[ORIGIN].maxStack == 1023
+//@   ensures [stack.CALLER] result[CALLER] != nil && result[CALLER].minStack == 0 && result[CALLER].maxStack == 1023
+//@   ensures [stack.CALLVALUE] result[CALLVALUE] != nil && result[CALLVALUE].minStack == 0 && result[CALLVALUE].maxStack == 1023
+//@   ensures [stack.CALLDATALOAD] result[CALLDATALOAD] != nil && result[CALLDATALOAD].minStack == 1 && result[CALLDATALOAD].maxStack == 1024
+//@   ensures [stack.CALLDATASIZE] result[CALLDATASIZE] != nil && result[CALLDATASIZE].minStack == 0 && result[CALLDATASIZE].maxStack == 1023
+//@   ensures [stack.CALLDATACOPY] result[CALLDATACOPY] != nil && result[CALLDATACOPY].minStack == 3 && result[CALLDATACOPY].maxStack == 1027
+//@   ensures [stack.CODESIZE] result[CODESIZE] != nil && result[CODESIZE].minStack == 0 && result[CODESIZE].maxStack == 1023
+//@   ensures [stack.CODECOPY] result[CODECOPY] != nil && result[CODECOPY].minStack == 3 && result[CODECOPY].maxStack == 1027
+//@   ensures [stack.GASPRICE] result[GASPRICE] != nil && result[GASPRICE].minStack == 0 && result[GASPRICE].maxStack == 1023
+//@   ensures [stack.EXTCODESIZE] result[EXTCODESIZE] != nil && result[EXTCODESIZE].minStack == 1 && result[EXTCODESIZE].maxStack == 1024
+//@   ensures [stack.EXTCODECOPY] result[EXTCODECOPY] != nil && result[EXTCODECOPY].minStack == 4 && result[EXTCODECOPY].maxStack == 1028
+//@   ensures [stack.BLOCKHASH] result[BLOCKHASH] != nil && result[BLOCKHASH].minStack == 1 && result[BLOCKHASH].maxStack == 1024
+//@   ensures [stack.COINBASE] result[COINBASE] != nil && result[COINBASE].minStack == 0 && result[COINBASE].maxStack == 1023
+//@   ensures [stack.TIMESTAMP] result[TIMESTAMP] != nil && result[TIMESTAMP].minStack == 0 && result[TIMESTAMP].maxStack == 1023
+//@   ensures [stack.NUMBER] result[NUMBER] != nil && result[NUMBER].minStack == 0 && result[NUMBER].maxStack == 1023
+//@   ensures [stack.DIFFICULTY] result[DIFFICULTY] != nil && result[DIFFICULTY].minStack == 0 && result[DIFFICULTY].maxStack == 1023
+//@   ensures [stack.GASLIMIT] result[GASLIMIT] != nil && result[GASLIMIT].minStack == 0 && result[GASLIMIT].maxStack == 1023
+//@   ensures [stack.POP] result[POP] != nil && result[POP].minStack == 1 && result[POP].maxStack == 1025
+//@   ensures [stack.MLOAD] result[MLOAD] != nil && result[MLOAD].minStack == 1 && result[MLOAD].maxStack == 1024
+//@   ensures [stack.MSTORE] result[MSTORE] != nil && result[MSTORE].minStack == 2 && result[MSTORE].maxStack == 1026
+//@   ensures [stack.MSTORE8] result[MSTORE8] != nil && result[MSTORE8].minStack == 2 && result[MSTORE8].maxStack == 1026
+//@   ensures [stack.SLOAD] result[SLOAD] != nil && result[SLOAD].minStack == 1 && result[SLOAD].maxStack == 1024
+//@   ensures [stack.SSTORE] result[SSTORE] != nil && result[SSTORE].minStack == 2 && result[SSTORE].maxStack == 1026
+//@   ensures [stack.JUMP] result[JUMP] != nil && result[JUMP].minStack == 1 && result[JUMP].maxStack == 1025
+//@   ensures [stack.JUMPI] result[JUMPI] != nil && result[JUMPI].minStack == 2 && result[JUMPI].maxStack == 1026
+//@   ensures [stack.PC] result[PC] != nil && result[PC].minStack == 0 && result[PC].maxStack == 1023
+//@   ensures [stack.MSIZE] result[MSIZE] != nil && result[MSIZE].minStack == 0 && result[MSIZE].maxStack == 1023
+//@   ensures [stack.GAS] result[GAS] != nil && result[GAS].minStack == 0 && result[GAS].maxStack == 1023
+//@   ensures [stack.JUMPDEST] result[JUMPDEST] != nil && result[JUMPDEST].minStack == 0 && result[JUMPDEST].maxStack == 1024
+//@   ensures [stack.PUSH1] result[PUSH1] != nil && result[PUSH1].minStack == 0 && result[PUSH1].maxStack == 1023
+//@   ensures [stack.PUSH2] result[PUSH2] != nil && result[PUSH2].minStack == 0 && result[PUSH2].maxStack == 1023
+//@   ensures [stack.PUSH3] result[PUSH3] != nil && result[PUSH3].minStack == 0 && result[PUSH3].maxStack == 1023
+//@   ensures [stack.PUSH4] result[PUSH4] != nil && result[PUSH4].minStack == 0 && result[PUSH4].maxStack == 1023
+//@   ensures [stack.PUSH5] result[PUSH5] != nil && result[PUSH5].minStack == 0 && result[PUSH5].maxStack == 1023
+//@   ensures [stack.PUSH6] result[PUSH6] != nil && result[PUSH6].minStack == 0 && result[PUSH6].maxStack == 1023
+//@   ensures [stack.PUSH7] result[PUSH7] != nil && result[PUSH7].minStack == 0 && result[PUSH7].maxStack == 1023
+//@   ensures [stack.PUSH8] result[PUSH8] != nil && result[PUSH8].minStack == 0 && result[PUSH8].maxStack == 1023
+//@   ensures [stack.PUSH9] result[PUSH9] != nil && result[PUSH9].minStack == 0 && result[PUSH9].maxStack == 1023
+//@   ensures [stack.PUSH10] result[PUSH10] != nil && result[PUSH10].minStack == 0 && result[PUSH10].maxStack == 1023
+//@   ensures [stack.PUSH11] result[PUSH11] != nil && result[PUSH11].minStack == 0 && result[PUSH11].maxStack == 1023
+//@   ensures [stack.PUSH12] result[PUSH12] != nil && result[PUSH12].minStack == 0 && result[PUSH12].maxStack == 1023
+//@   ensures [stack.PUSH13] result[PUSH13] != nil && result[PUSH13].minStack == 0 && result[PUSH13].maxStack == 1023
+//@   ensures [stack.PUSH14] result[PUSH14] != nil && result[PUSH14].minStack == 0 && result[PUSH14].maxStack == 1023
+//@   ensures [stack.PUSH15] result[PUSH15] != nil && result[PUSH15].minStack == 0 && result[PUSH15].maxStack == 1023
+//@   ensures [stack.PUSH16] result[PUSH16] != nil && result[PUSH16].minStack == 0 && result[PUSH16].maxStack == 1023
+//@   ensures [stack.PUSH17] result[PUSH17] != nil && result[PUSH17].minStack == 0 && result[PUSH17].maxStack == 1023
+//@   ensures [stack.PUSH18] result[PUSH18] != nil && result[PUSH18].minStack == 0 && result[PUSH18].maxStack == 1023
+//@   ensures [stack.PUSH19] result[PUSH19] != nil && result[PUSH19].minStack == 0 && result[PUSH19].maxStack == 1023
+//@   ensures [stack.PUSH20] result[PUSH20] != nil && result[PUSH20].minStack == 0 && result[PUSH20].maxStack == 1023
+//@   ensures [stack.PUSH21] result[PUSH21] != nil && result[PUSH21].minStack == 0 && result[PUSH21].maxStack == 1023
+//@   ensures [stack.PUSH22] result[PUSH22] != nil && result[PUSH22].minStack == 0 && result[PUSH22].maxStack == 1023
+//@   ensures [stack.PUSH23] result[PUSH23] != nil && result[PUSH23].minStack == 0 && result[PUSH23].maxStack == 1023
+//@   ensures [stack.PUSH24] result[PUSH24] != nil && result[PUSH24].minStack == 0 && result[PUSH24].maxStack == 1023
+//@   ensures [stack.PUSH25] result[PUSH25] != nil && result[PUSH25].minStack == 0 && result[PUSH25].maxStack == 1023
+//@   ensures [stack.PUSH26] result[PUSH26] != nil && result[PUSH26].minStack == 0 && result[PUSH26].maxStack == 1023
+//@   ensures [stack.PUSH27] result[PUSH27] != nil && result[PUSH27].minStack == 0 && result[PUSH27].maxStack == 1023
+//@   ensures [stack.PUSH28] result[PUSH28] != nil && result[PUSH28].minStack == 0 && result[PUSH28].maxStack == 1023
+//@   ensures [stack.PUSH29] result[PUSH29] != nil && result[PUSH29].minStack == 0 && result[PUSH29].maxStack == 1023
+//@   ensures [stack.PUSH30] result[PUSH30] != nil && result[PUSH30].minStack == 0 && result[PUSH30].maxStack == 1023
+//@   ensures [stack.PUSH31] result[PUSH31] != nil && result[PUSH31].minStack == 0 && result[PUSH31].maxStack == 1023
+//@   ensures [stack.PUSH32] result[PUSH32] != nil && result[PUSH32].minStack == 0 && result[PUSH32].maxStack == 1023
+//@   ensures [stack.DUP1] result[DUP1] != nil && result[DUP1].minStack == 1 && result[DUP1].maxStack == 1023
+//@   ensures [stack.DUP2] result[DUP2] != nil && result[DUP2].minStack == 2 && result[DUP2].maxStack == 1023
+//@   ensures [stack.DUP3] result[DUP3] != nil && result[DUP3].minStack == 3 && result[DUP3].maxStack == 1023
+//@   ensures [stack.DUP4] result[DUP4] != nil && result[DUP4].minStack == 4 && result[DUP4].maxStack == 1023
+//@   ensures [stack.DUP5] result[DUP5] != nil && result[DUP5].minStack == 5 && result[DUP5].maxStack == 1023
+//@   ensures [stack.DUP6] result[DUP6] != nil && result[DUP6].minStack == 6 && result[DUP6].maxStack == 1023
+//@   ensures [stack.DUP7] result[DUP7] != nil && result[DUP7].minStack == 7 && result[DUP7].maxStack == 1023
+//@   ensures [stack.DUP8] result[DUP8] != nil && result[DUP8].minStack == 8 && result[DUP8].maxStack == 1023
+//@   ensures [stack.DUP9] result[DUP9] != nil && result[DUP9].minStack == 9 && result[DUP9].maxStack == 1023
+//@   ensures [stack.DUP10] result[DUP10] != nil && result[DUP10].minStack == 10 && result[DUP10].maxStack == 1023
+//@   ensures [stack.DUP11] result[DUP11] != nil && result[DUP11].minStack == 11 && result[DUP11].maxStack == 1023
+//@   ensures [stack.DUP12] result[DUP12] != nil && result[DUP12].minStack == 12 && result[DUP12].maxStack == 1023
+//@   ensures [stack.DUP13] result[DUP13] != nil && result[DUP13].minStack == 13 && result[DUP13].maxStack == 1023
+//@   ensures [stack.DUP14] result[DUP14] != nil && result[DUP14].minStack == 14 && result[DUP14].maxStack == 1023
+//@   ensures [stack.DUP15] result[DUP15] != nil && result[DUP15].minStack == 15 && result[DUP15].maxStack == 1023
+//@   ensures [stack.DUP16] result[DUP16] != nil && result[DUP16].minStack == 16 && result[DUP16].maxStack == 1023
+//@   ensures [stack.SWAP1] result[SWAP1] != nil && result[SWAP1].minStack == 2 && result[SWAP1].maxStack == 1024
+//@   ensures [stack.SWAP2] result[SWAP2] != nil && result[SWAP2].minStack == 3 && result[SWAP2].maxStack == 1024
+//@   ensures [stack.SWAP3] result[SWAP3] != nil && result[SWAP3].minStack == 4 && result[SWAP3].maxStack == 1024
+//@   ensures [stack.SWAP4] result[SWAP4] != nil && result[SWAP4].minStack == 5 && result[SWAP4].maxStack == 1024
+//@   ensures [stack.SWAP5] result[SWAP5] != nil && result[SWAP5].minStack == 6 && result[SWAP5].maxStack == 1024
+//@   ensures [stack.SWAP6] result[SWAP6] != nil && result[SWAP6].minStack == 7 && result[SWAP6].maxStack == 1024
+//@   ensures [stack.SWAP7] result[SWAP7] != nil && result[SWAP7].minStack == 8 && result[SWAP7].maxStack == 1024
+//@   ensures [stack.SWAP8] result[SWAP8] != nil && result[SWAP8].minStack == 9 && result[SWAP8].maxStack == 1024
+//@   ensures [stack.SWAP9] result[SWAP9] != nil && result[SWAP9].minStack == 10 && result[SWAP9].maxStack == 1024
+//@   ensures [stack.SWAP10] result[SWAP10] != nil && result[SWAP10].minStack == 11 && result[SWAP10].maxStack == 1024
+//@   ensures [stack.SWAP11] result[SWAP11] != nil && result[SWAP11].minStack == 12 && result[SWAP11].maxStack == 1024
+//@   ensures [stack.SWAP12] result[SWAP12] != nil && result[SWAP12].minStack == 13 && result[SWAP12].maxStack == 1024
+//@   ensures [stack.SWAP13] result[SWAP13] != nil && result[SWAP13].minStack == 14 && result[SWAP13].maxStack == 1024
+//@   ensures [stack.SWAP14] result[SWAP14] != nil && result[SWAP14].minStack == 15 && result[SWAP14].maxStack == 1024
+//@   ensures [stack.SWAP15] result[SWAP15] != nil && result[SWAP15].minStack == 16 && result[SWAP15].maxStack == 1024
+//@   ensures [stack.SWAP16] result[SWAP16] != nil && result[SWAP16].minStack == 17 && result[SWAP16].maxStack == 1024
+//@   ensures [stack.LOG0] result[LOG0] != nil && result[LOG0].minStack == 2 && result[LOG0].maxStack == 1026
+//@   ensures [stack.LOG1] result[LOG1] != nil && result[LOG1].minStack == 3 && result[LOG1].maxStack == 1027
+//@   ensures [stack.LOG2] result[LOG2] != nil && result[LOG2].minStack == 4 && result[LOG2].maxStack == 1028
+//@   ensures [stack.LOG3] result[LOG3] != nil && result[LOG3].minStack == 5 && result[LOG3].maxStack == 1029
+//@   ensures [stack.LOG4] result[LOG4] != nil && result[LOG4].minStack == 6 && result[LOG4].maxStack == 1030
+//@   ensures [stack.CREATE] result[CREATE] != nil && result[CREATE].minStack == 3 && result[CREATE].maxStack == 1026
+//@   ensures [stack.CALL] result[CALL] != nil && result[CALL].minStack == 7 && result[CALL].maxStack == 1030
+//@   ensures [stack.CALLCODE] result[CALLCODE] != nil && result[CALLCODE].minStack == 7 && result[CALLCODE].maxStack == 1030
+//@   ensures [stack.RETURN] result[RETURN] != nil && result[RETURN].minStack == 2 && result[RETURN].maxStack == 1026
+//@   ensures [stack.SELFDESTRUCT] result[SELFDESTRUCT] != nil && result[SELFDESTRUCT].minStack == 1 && result[SELFDESTRUCT].maxStack == 1025
+//@   ensures [stack.DELEGATECALL] result[DELEGATECALL] != nil && result[DELEGATECALL].minStack == 6 && result[DELEGATECALL].maxStack == 1029
+//@   ensures [stack.STATICCALL] result[STATICCALL] != nil && result[STATICCALL].minStack == 6 && result[STATICCALL].maxStack == 1029
+//@   ensures [stack.RETURNDATASIZE] result[RETURNDATASIZE] != nil && result[RETURNDATASIZE].minStack == 0 && result[RETURNDATASIZE].maxStack == 1023
+//@   ensures [stack.RETURNDATACOPY] result[RETURNDATACOPY] != nil && result[RETURNDATACOPY].minStack == 3 && result[RETURNDATACOPY].maxStack == 1027
+//@   ensures [stack.REVERT] result[REVERT] != nil && result[REVERT].minStack == 2 && result[REVERT].maxStack == 1026
+//@   ensures [stack.SHL] result[SHL] != nil && result[SHL].minStack == 2 && result[SHL].maxStack == 1025
+//@   ensures [stack.SHR] result[SHR] != nil && result[SHR].minStack == 2 && result[SHR].maxStack == 1025
+//@   ensures [stack.SAR] result[SAR] != nil && result[SAR].minStack == 2 && result[SAR].maxStack == 1025
+//@   ensures [stack.EXTCODEHASH] result[EXTCODEHASH] != nil && result[EXTCODEHASH].minStack == 1 && result[EXTCODEHASH].maxStack == 1024
+//@   ensures [stack.CREATE2] result[CREATE2] != nil && result[CREATE2].minStack == 4 && result[CREATE2].maxStack == 1027
+//@   ensures [stack.CHAINID] result[CHAINID] != nil && result[CHAINID].minStack == 0 && result[CHAINID].maxStack == 1023
+//@   ensures [stack.SELFBALANCE] result[SELFBALANCE] != nil && result[SELFBALANCE].minStack == 0 && result[SELFBALANCE].maxStack == 1023
